@@ -8,6 +8,7 @@ package netpoll
 // accepted task must have run exactly once: otherwise the wake-up was lost (state witness).
 
 import (
+	"encoding/binary"
 	"fmt"
 	"os"
 	"reflect"
@@ -132,12 +133,16 @@ func (r *prun) producer(id int) func() {
 		for i, pr := range r.script[id] {
 			r.s.Point("start", 0)
 			prio := queue.HighPriority
-			if pr == "L" {
+			if pr[0] == 'L' {
 				prio = queue.LowPriority
 			}
+			stops := len(pr) == 2 // "HS" / "LS": the task answers ErrEngineShutdown
 			tk := [2]int{id, i + 1}
 			err := r.p.Trigger(prio, func(a any) error {
 				r.execs = append(r.execs, a.([2]int))
+				if stops {
+					return errorx.ErrEngineShutdown
+				}
 				return nil
 			}, tk)
 			if err == nil {
@@ -155,6 +160,19 @@ func newPrun(script map[int][]string, thresh int) (*prun, error) {
 		return nil, err
 	}
 	p.highPriorityEventsThreshold = int32(thresh)
+	if vsup.EnvInt("VERIF_SAT", 0) == 1 {
+		// the eventfd's counter at its maximum (the state after 2^64-2 unread wake-ups): the next write fails with
+		// EAGAIN.  The readiness edge this write raises is consumed here, so that the run starts with none pending
+		var b [8]byte
+		binary.LittleEndian.PutUint64(b[:], 0xfffffffffffffffe)
+		if _, err := unix.Write(efdOf(p), b[:]); err != nil {
+			return nil, err
+		}
+		evs := make([]unix.EpollEvent, 4)
+		if n, err := unix.EpollWait(p.fd, evs, 0); err != nil || n != 1 {
+			return nil, fmt.Errorf("saturating the eventfd: epoll_wait returned %d, %v", n, err)
+		}
+	}
 	r := &prun{p: p, s: vsup.NewSched(), acc: map[[2]int]bool{}, accMu: make(chan struct{}, 1), script: script, polled: make(chan error, 1)}
 	r.accMu <- struct{}{}
 	return r, nil
@@ -187,7 +205,7 @@ func (r *prun) stop() {
 	_ = r.p.Trigger(queue.HighPriority, func(any) error { return errorx.ErrEngineShutdown }, nil)
 	select {
 	case <-r.polled:
-	case <-time.After(5 * time.Second):
+	case <-time.After(time.Second):
 	}
 	_ = r.p.Close()
 }
@@ -227,8 +245,16 @@ func (r *prun) finish(rng *vsup.Rng, rep *vsup.Report, path []string) {
 		}
 	}
 	seen := map[[2]int]int{}
+	stopped := false
 	for _, e := range r.execs {
 		seen[e]++
+		stopped = stopped || len(r.script[e[0]][e[1]-1]) == 2
+	}
+	if stopped && !r.s.Done(0) {
+		rep.Violation("poller/shutdown-lost", fmt.Sprintf("a task answered ErrEngineShutdown but Polling did not return: it went on (tasks run: %v) and is waiting for events again", r.execs), path)
+	}
+	if !stopped && r.s.Done(0) {
+		rep.Violation("poller/polling-returned", "Polling returned although no task asked for it", path)
 	}
 	for tk, n := range seen {
 		if n > 1 {
@@ -239,7 +265,7 @@ func (r *prun) finish(rng *vsup.Rng, rep *vsup.Report, path []string) {
 		}
 	}
 	for tk := range r.acc {
-		if seen[tk] == 0 {
+		if seen[tk] == 0 && !stopped {
 			u, _ := contents(r.p.urgentAsyncTaskQueue)
 			l, _ := contents(r.p.asyncTaskQueue)
 			rep.Violation("poller/lost-wakeup", fmt.Sprintf("task %v was accepted but never ran: loop parked before epoll_wait(-1), epoll descriptor not ready, wakeupCall=%d, urgent queue %v, low queue %v", tk, atomic.LoadInt32(&r.p.wakeupCall), u, l), path)
@@ -248,7 +274,7 @@ func (r *prun) finish(rng *vsup.Rng, rep *vsup.Report, path []string) {
 	}
 	last := map[int]int{}
 	for _, e := range r.execs {
-		if r.script[e[0]][e[1]-1] == "H" {
+		if r.script[e[0]][e[1]-1][0] == 'H' {
 			if e[1] < last[e[0]] {
 				rep.Violation("poller/high-prio-order", fmt.Sprintf("high-priority task %v ran after task %d of the same producer", e, last[e[0]]), path)
 			}
@@ -301,6 +327,10 @@ func TestVerifPollerCover(t *testing.T) {
 		idx = idx[:max]
 	}
 	for _, ei := range idx {
+		if rep.ViolationCount() >= 40 {
+			rep.Set("cut_short", "40 schedules ended in a violation: the remaining ones were not run")
+			break
+		}
 		path := append(g.PathTo(g.Edges[ei].From), ei)
 		labels := g.PathLabels(path)
 		r, err := newPrun(script, thresh)
